@@ -333,60 +333,53 @@ def _origin(e, lets, depth=0):
 def r2b_key_path_decor(rep, facts):
     R = rep.rule('C03/R2b', 'placement of key-path whitespace agrees between reader and writers: the parser stores the text around a whole '
                  'dotted key on the leaf decor of the LAST segment and the text around the dots on each segment\'s dotted decor; both key-path '
-                 'printers take the leaf decor from `<path>.last()` and the dotted decor from the segment being printed', floor=6)
-    # reader
+                 'printers take the leaf decor from `<path>.last()` and the dotted decor from the segment being printed', floor=5)
+    # reader: `key()` evaluated (the closure that builds each segment, then the statements after the match) on paths of 1..3 segments with distinct white space
+    # everywhere; the decor each key ends up with is read off the result
     b = facts.body(P + 'key::key')
     lets = _lets(b['body'])
-    ok = False
-    how = 'no `*<key>.leaf_decor_mut() = ..` assignment'
-    for n in walk(b['body']):
-        if n.get('k') == 'assign':
-            l = peel(n['lhs'])
-            tgt = l.get('a') or l.get('e') or l
-            tgt = peel(tgt) if isinstance(tgt, dict) else l
-            for m in walk(n['lhs']):
-                if m.get('k') == 'mcall' and m.get('name') == 'leaf_decor_mut':
-                    root, ms = _origin(m['recv'], lets)
-                    how = f'leaf decor stored on {root}.{".".join(x for x in ms if x)}'
-                    ok = 'last_mut' in ms or 'last' in ms
-    rep.check(R, 'key::key|leaf-decor-on-last', ok, how, f'the parser stores the whitespace around a dotted key elsewhere than on its last segment ({how}); the printers read it from `.last()`', facts.loc(b))
-    srcs = []
-    for n in walk(b['body']):
-        if n.get('k') == 'mcall' and n.get('name') in ('set_prefix', 'set_suffix'):
-            root, ms = _origin(n['recv'], lets)
-            a0 = peel(n['args'][0]) if n.get('args') else {}
-            if a0.get('k') == 'path' and a0.get('res') == 'Local':
-                # leaf_decor.set_prefix(prefix): where does `prefix` come from
-                srcs.append((n['name'], a0.get('path')))
-    # prefix comes from the first segment, suffix from the last
-    okp = oks = False
-    for n in walk(b['body']):
-        if n.get('k') == 'if' and peel(n['cond']).get('k') == 'letexpr':
-            le = peel(n['cond'])
-            root, ms = _origin(le['init'], lets)
-            sets = [x.get('name') for x in walk(n['then']) if x.get('k') == 'mcall' and x.get('name') in ('set_prefix', 'set_suffix')]
-            if 'prefix' in ms and 'first_mut' in ms and 'set_prefix' in sets:
-                okp = True
-            if 'suffix' in ms and ('last_mut' in ms or 'last' in ms) and 'set_suffix' in sets:
-                oks = True
-    # moved, not copied: the source decor is emptied in the same branch
-    moved = {'prefix': False, 'suffix': False}
-    for n in walk(b['body']):
-        if n.get('k') == 'if' and peel(n['cond']).get('k') == 'letexpr':
-            sets = [x for x in walk(n['then']) if x.get('k') == 'mcall' and x.get('name') in ('set_prefix', 'set_suffix')]
-            for which in ('prefix', 'suffix'):
-                mine = [x for x in sets if x['name'] == 'set_' + which]
-                leaf_side = [x for x in mine if peel(x['args'][0]).get('k') == 'path']
-                cleared = [x for x in mine if peel(x['args'][0]).get('k') == 'lit' and peel(x['args'][0]).get('v') == '']
-                if leaf_side and cleared:
-                    r1, m1 = _origin(cleared[0]['recv'], lets)
-                    if any(y.startswith('dotted_decor') for y in m1):
-                        moved[which] = True
-    rep.check(R, 'key::key|moved-not-copied', moved['prefix'] and moved['suffix'], 'the dotted decor is emptied where its text moves to the leaf decor',
-              f'the whitespace moved to the leaf decor stays on the dotted decor as well ({"prefix" if not moved["prefix"] else "suffix"} not cleared): the stored key of `[ a ]` then prints '
-              f'that text again as a non-last segment of `[a.b]`', facts.loc(b))
-    rep.check(R, 'key::key|prefix-from-first', okp, 'leaf prefix = text before the first segment', 'the leaf prefix is no longer taken from the first segment of the dotted key', facts.loc(b))
-    rep.check(R, 'key::key|suffix-from-last', oks, 'leaf suffix = text after the last segment', 'the leaf suffix is no longer taken from the last segment of the dotted key', facts.loc(b))
+    from .eventdrive import Pipeline
+    from .den import Unanalysable as _Un, EvalPanic as _Ep
+    from .places import deref as _deref
+
+    def span_of(raw):
+        raw = _deref(raw)
+        if isinstance(raw, tuple) and len(raw) >= 2 and raw[1].endswith('Option::None'):
+            return None
+        if isinstance(raw, tuple) and len(raw) == 3 and raw[1].endswith('Option::Some'):
+            raw = _deref(raw[2][0])
+        inner = _deref(raw[2]['0']) if isinstance(raw, tuple) and raw[0] == 'struct' else raw
+        if isinstance(inner, tuple) and inner[1].endswith('::Spanned'):
+            r = _deref(inner[2][0])
+            return (r[1], r[2] + 1)
+        if isinstance(inner, tuple) and inner[1].endswith('::Empty'):
+            return None
+        if isinstance(inner, tuple) and inner[1].endswith('::Explicit'):
+            return 'text'
+        return 'other'
+    for text in (' a  ', '  a . b   ', ' a  .   b    .     c      '):
+        n = text.count('.') + 1
+        key = f'key::key|{n} segment(s)'
+        try:
+            keys, end = Pipeline(facts).key_path(text, 0)
+            ks = [_deref(k) for k in keys.items]
+            got = [{'leaf': (span_of(k[2]['leaf_decor'][2]['prefix']), span_of(k[2]['leaf_decor'][2]['suffix'])),
+                    'dotted': (span_of(k[2]['dotted_decor'][2]['prefix']), span_of(k[2]['dotted_decor'][2]['suffix']))} for k in ks]
+        except (_Un, _Ep, TypeError, KeyError, IndexError, AttributeError, ValueError) as ex:
+            rep.incomplete(R, key, f'cannot evaluate `key::key` on {text!r}: {type(ex).__name__}: {ex}', facts.loc(b))
+            continue
+        import re as _re
+        segs = [(m.start(1), m.start(2), m.end(2), m.end(3)) for m in _re.finditer(r'([ ]*)([a-z])([ ]*)', text)]
+        want = []
+        for i_, (p0, k0, k1, s1) in enumerate(segs):
+            last, first = i_ == n - 1, i_ == 0
+            want.append({'leaf': ((segs[0][0], segs[0][1]), (k1, s1)) if last else (None, None),
+                         'dotted': (None if first else (p0, k0), None if last else (k1, s1))})
+        norm = lambda d: {kk: tuple(None if (x is None or (isinstance(x, tuple) and x[0] == x[1])) else x for x in vv) for kk, vv in d.items()}
+        ok = len(got) == n and all(norm(g) == norm(w) for g, w in zip(got, want))
+        rep.check(R, key, ok, 'text around the whole key on the last segment\'s leaf decor, text around the dots on the dotted decor, nothing twice',
+                  f'`key::key` on {text!r} leaves the decor {got}; the printers expect {want} (the text before the first and after the last segment on the leaf decor of the last segment — '
+                  f'moved there, not copied — and the text around the dots on the dotted decor of the segment it belongs to)', facts.loc(b))
     # writers: decided on the writer events of paths of 1..3 segments (which decor is written around which key, see R2's segments-and-dots); the
     # reading of the receivers below is the fallback when the functions cannot be evaluated
     traced = None
